@@ -84,6 +84,7 @@ VALS = ["secret123", "", "yes", "null", "line\nbreak", ": a", "1", " lead ", "#c
 NV = B(6, 14)
 SPECS: List[Any] = [
     {"image": "registry/app1:latest", "projectId": "proj-1"},
+    {"displayName": "Café Zürich – Büro"},   # non-ASCII text (several multi-byte characters): member sizes are BYTE counts
     {"v": "yes"},
     {"v": None},
     {"v": 1},
@@ -104,7 +105,7 @@ SPECS: List[Any] = [
     {"v": [[], [[]], {}]},
     {"v": "? x"},
 ]
-NS = B(8, 20)
+NS = B(9, 21)
 GENS = [None, 0, 7]
 
 
@@ -172,7 +173,7 @@ def _round_trip_ok(deployments, secrets, generations, gen_arg, pw) -> bool:
             partitions_thorough=[f"ni == {j}" for j in range(NN_T)],
             what="one deployment: read_backup_archive(create_backup_archive(x)) returns exactly the resource, secret and generation "
                  "that went in, under the same name (type-strict deep equality), password None or '' on both sides",
-            bounds={"name": "NN of the pool (4 quick / 10 thorough)", "resource body": "NS JSON-like values (8 / 20), with / without labels+annotations",
+            bounds={"name": "NN of the pool (4 quick / 10 thorough)", "resource body": "NS JSON-like values (9 / 21), with / without labels+annotations",
                     "secret": "absent, {}, one key, two keys; NK keys (4 / 8) x NV values (6 / 14), YAML-sensitive",
                     "generation": "absent, 0, 7; generations argument None / {} / map", "password": "None, ''"})
 def ob_roundtrip_one(ni: int, sec: int, ka: int, va: int, gen: int, gmode: int, si: int, labels: bool, wp: int) -> bool:
